@@ -50,9 +50,9 @@ pub mod c18 {
 
     /// reader used before later data was flushed, then reads the later data
     pub fn reuse_after_flush<const H: usize>(n1: usize, n2: usize, start: u64, seq: bool) {
-        let mut w = Writer::<H>::verif_new(fmodel::fake_file(), SEG, start);
+        let mut w = Writer::<H>::create("seg", SEG, start).unwrap();
         let fl = w.flushed_offset();
-        let mut r = Reader::<H>::verif_new(fmodel::fake_file(), fl.clone());
+        let mut r = Reader::<H>::open("seg", Some(fl.clone())).unwrap();
         let d1 = any_bytes();
         let hdr: [u8; H] = kani::any();
         let (o1, l1) = w.append(&hdr, &d1[..n1]).unwrap();
@@ -76,9 +76,9 @@ pub mod c18 {
 
     /// never a byte at or beyond the flushed offset: unsynced appended data (buffered or in the page cache)
     pub fn unflushed_not_served<const H: usize>(n1: usize, n2: usize, start: u64, seq: bool) {
-        let mut w = Writer::<H>::verif_new(fmodel::fake_file(), SEG, start);
+        let mut w = Writer::<H>::create("seg", SEG, start).unwrap();
         let fl = w.flushed_offset();
-        let mut r = Reader::<H>::verif_new(fmodel::fake_file(), fl.clone());
+        let mut r = Reader::<H>::open("seg", Some(fl.clone())).unwrap();
         let d1 = any_bytes();
         let hdr: [u8; H] = kani::any();
         let (o1, l1) = w.append(&hdr, &d1[..n1]).unwrap();
@@ -100,9 +100,9 @@ pub mod c18 {
 
     /// truncation: reader cached records, writer truncates (set_len); nothing at the cut may be served
     pub fn truncate_then_read<const H: usize>(n1: usize, n2: usize, start: u64, seq: bool) {
-        let mut w = Writer::<H>::verif_new(fmodel::fake_file(), SEG, start);
+        let mut w = Writer::<H>::create("seg", SEG, start).unwrap();
         let fl = w.flushed_offset();
-        let mut r = Reader::<H>::verif_new(fmodel::fake_file(), fl.clone());
+        let mut r = Reader::<H>::open("seg", Some(fl.clone())).unwrap();
         let d1 = any_bytes();
         let hdr: [u8; H] = kani::any();
         let (o1, l1) = w.append(&hdr, &d1[..n1]).unwrap();
@@ -121,9 +121,9 @@ pub mod c18 {
 
     /// truncation followed by a different record at the same offset, read through the reader that cached the old one
     pub fn truncate_rewrite<const H: usize>(n1: usize, n2: usize, start: u64, seq: bool) {
-        let mut w = Writer::<H>::verif_new(fmodel::fake_file(), SEG, start);
+        let mut w = Writer::<H>::create("seg", SEG, start).unwrap();
         let fl = w.flushed_offset();
-        let mut r = Reader::<H>::verif_new(fmodel::fake_file(), fl.clone());
+        let mut r = Reader::<H>::open("seg", Some(fl.clone())).unwrap();
         let d1 = any_bytes();
         let hdr: [u8; H] = kani::any();
         let (o1, l1) = w.append(&hdr, &d1[..n1]).unwrap();
@@ -145,9 +145,9 @@ pub mod c18 {
 
     /// header replacement through the same long-lived reader invalidates its cache
     pub fn replace_header_then_read(n1: usize, n2: usize, start: u64, seq: bool, second: bool) {
-        let mut w = Writer::<1>::verif_new(fmodel::fake_file(), SEG, start);
+        let mut w = Writer::<1>::create("seg", SEG, start).unwrap();
         let fl = w.flushed_offset();
-        let mut r = Reader::<1>::verif_new(fmodel::fake_file(), fl.clone());
+        let mut r = Reader::<1>::open("seg", Some(fl.clone())).unwrap();
         let d1 = any_bytes();
         let hdr: [u8; 1] = kani::any();
         let (o1, l1) = w.append(&hdr, &d1[..n1]).unwrap();
@@ -180,9 +180,9 @@ pub mod c18 {
 
     /// iteration from any record boundary yields exactly the flushed records
     pub fn iterate_flushed<const H: usize>(n1: usize, n2: usize, start: u64, from_second: bool) {
-        let mut w = Writer::<H>::verif_new(fmodel::fake_file(), SEG, start);
+        let mut w = Writer::<H>::create("seg", SEG, start).unwrap();
         let fl = w.flushed_offset();
-        let mut r = Reader::<H>::verif_new(fmodel::fake_file(), fl.clone());
+        let mut r = Reader::<H>::open("seg", Some(fl.clone())).unwrap();
         let d1 = any_bytes();
         let hdr: [u8; H] = kani::any();
         let (o1, l1) = w.append(&hdr, &d1[..n1]).unwrap();
